@@ -1047,8 +1047,10 @@ func (rule *RuleExpression) checkWorkflowCallOutputs(outputs map[string]*Workflo
 			}
 			o = NewStrictObjectType(p)
 		}
+		// https://docs.github.com/en/actions/learn-github-actions/contexts#jobs-context
 		props[n] = NewStrictObjectType(map[string]ExprType{
 			"outputs": o,
+			"result":  StringType{},
 		})
 	}
 	rule.jobsTy = NewStrictObjectType(props)
